@@ -31,6 +31,7 @@
 #include <climits>
 #include <cmath>
 #include <cfloat>
+#include <cctype>
 #include <algorithm>
 #include <igris/util/numconvert.h>
 #include <igris/dprint/dprint.h>
@@ -48,6 +49,12 @@ extern "C"
     double igv_atof(const char *);
     const double *igv_rounders(void);
     int igv_max_precision(void);
+    // the WITHOUT_ATOF64 build flavour (harness/C12_libc32.c)
+    double igv32_igris_strtod(const char *, char **);
+    char *igv32_igris_ftoa(float, char *, int8_t);
+    double igv32_strtod(const char *, char **);
+    double igv32_atof(const char *);
+    int igv32_sizeof_ftoa_arg(void);
 }
 
 static std::string g_out;
@@ -163,7 +170,8 @@ static ftoa_out run_ftoa(int kind, uint64_t b, int8_t prec)
         {
         case 0: return igris_f32toa(f_of((uint32_t)b), buf, prec);
         case 1: return igris_f64toa(d_of(b), buf, prec);
-        default: return igris_ftoa(d_of(b), buf, prec);
+        case 2: return igris_ftoa(d_of(b), buf, prec);
+        default: return igv32_igris_ftoa(d_of(b), buf, prec); // the double is converted to float32_t at the call
         }
     };
     const size_t BIG = 48;
@@ -279,11 +287,41 @@ static bool a64_small_budget(const lit &L)
     return sigdigits(L) <= 15 && labs(d) <= 2 && (L.ip.size() + L.fp.size()) <= 15;
 }
 
-static void check_atof(out &o, const lit &L, bool single, ld v, bool vnan, long end, bool has_end, bool strict = false)
+// glibc strtod/strtof RESTRICTED TO THE DECIMAL GRAMMAR of the property: the string is cut at the first
+// character that cannot occur in a decimal literal (so glibc never sees a hex float, inf, nan), and leading
+// white space - which glibc skips and the property's grammar does not have - means "no conversion".
+// Yields the end offset and the correctly rounded value; a string without a mantissa digit converts nothing
+// (end 0, value 0: C11 7.22.1.3p4/p7).
+struct gref { long end; ld val; };
+static gref glibc_decimal(const uint8_t *s, bool single)
 {
-    if (has_end && end != (long)L.end) { o.fail("end offset " + std::to_string(end) + ", the literal ends at " + std::to_string(L.end)); return; }
+    gref g{0, 0};
+    if (isspace(s[0])) return g;
+    std::string c;
+    for (size_t i = 0; s[i] && strchr("+-.eE0123456789", (char)s[i]); i++) c.push_back((char)s[i]);
+    char *e = 0;
+    g.val = single ? (ld)strtof(c.c_str(), &e) : (ld)strtod(c.c_str(), &e);
+    g.end = e - c.c_str();
+    return g;
+}
+
+static void check_atof(out &o, const lit &L, bool single, ld v, bool vnan, long end, bool has_end, bool strict = false, const uint8_t *str = 0)
+{
+    // "no digits -> no conversion": a literal of the grammar without a mantissa digit ("-", ".", "+.", ".e5") is not a number
+    bool nodigits = L.ip.empty() && L.fp.empty();
+    long want = nodigits ? 0 : (long)L.end;
+    if (has_end && end != want) { o.fail("end offset " + std::to_string(end) + ", the literal ends at " + std::to_string(want)); return; }
+    gref g{want, 0};
+    if (str)
+    {
+        g = glibc_decimal(str, single);
+        if (has_end && end != g.end) { o.fail("end offset " + std::to_string(end) + ", glibc strtod (decimal grammar) stops at " + std::to_string(g.end)); return; }
+        if (g.end != want) { o.fail("oracle: glibc stops at " + std::to_string(g.end) + ", the grammar matcher at " + std::to_string(want)); return; }
+    }
     ld ref;
-    if (!ref_value(L, single, &ref)) { o.fail("oracle: glibc did not accept the re-assembled literal"); return; }
+    if (nodigits) ref = 0;
+    else if (!ref_value(L, single, &ref)) { o.fail("oracle: glibc did not accept the re-assembled literal"); return; }
+    if (str && !nodigits && !(g.val == ref)) { o.fail("oracle: glibc value of the string differs from glibc value of the re-assembled literal"); return; }
     if (vnan) { o.fail("result is NaN"); return; }
     ld top = single ? ldexpl(1, 128) : ldexpl(1, 1024);
     if (std::isinf(v)) v = v > 0 ? top : -top;
@@ -353,6 +391,116 @@ static const char *check_dprint(double x, int prec, const std::string &s)
 static bool dprint_out_of_range(double x) { return std::isfinite(x) && fabs(x) >= 18446744073709551616.0; }
 
 // ---------------------------------------------------------------------------------------------
+// the parser entry points
+enum { E_A64, E_ISTD, E_STRTOD, E_ATOF, E_A32, E_BRF, E_ISTD32, E_STRTOD32, E_ATOF32C, E_HASHED, E_A32N = E_HASHED, E_A64U, E_N };
+static const char *ENAME[E_N] = {"a64", "istd", "strtod", "atof", "a32", "brf", "istd32", "strtod32", "atof32c", "a32n", "a64u"};
+static int entry_index(const std::string &op)
+{
+    for (int k = 0; k < E_N; k++)
+        if (op == ENAME[k]) return k;
+    return -1;
+}
+// is32: the value is a float32_t; single: accuracy of binary32 (is32, or a float widened to double by the
+// WITHOUT_ATOF64 flavour of igris_strtod / strtod / atof)
+struct pres { bool is32 = false, single = false, has_end = true, unset = false; long end = 0; float vf = 0; double vd = 0; };
+static pres call_entry(int k, const char *s)
+{
+    pres r;
+    char *const UNSET = (char *)16;
+    char *end = UNSET;
+    switch (k)
+    {
+    case E_A64: case E_A64U: r.vd = igris_atof64(s, &end); break;
+    case E_ISTD: r.vd = igris_strtod(s, &end); break;
+    case E_STRTOD: r.vd = igv_strtod(s, &end); break;
+    case E_ATOF: r.vd = igv_atof(s), r.has_end = false; break;
+    case E_A32: r.vf = igris_atof32(s, &end), r.is32 = r.single = true; break;
+    case E_A32N: r.vf = igris_atof32(s, 0), r.is32 = r.single = true, r.has_end = false; break;
+    case E_BRF:
+    {
+        igris::binreader br(s);
+        br.read_ascii_decimal_float(&r.vf);
+        const char *q;
+        br.bind_buffer(q, 0); // reads the reader's position
+        end = (char *)q;
+        r.is32 = r.single = true;
+        break;
+    }
+    case E_ISTD32: r.vd = igv32_igris_strtod(s, &end), r.single = true; break;
+    case E_STRTOD32: r.vd = igv32_strtod(s, &end), r.single = true; break;
+    case E_ATOF32C: r.vd = igv32_atof(s), r.single = true, r.has_end = false; break;
+    }
+    if (r.has_end)
+    {
+        if (end == UNSET) r.unset = true;
+        else r.end = end - s;
+    }
+    return r;
+}
+static void judge_entry(out &o, int k, const uint8_t *s, const pres &r, const lit &L)
+{
+    if (r.has_end && r.unset) { o.fail("the end pointer was not stored"); return; }
+    if (!r.is32 && r.single && !std::isnan(r.vd) && (double)(float)r.vd != r.vd) { o.fail("the WITHOUT_ATOF64 flavour returned a value that is not a float"); return; }
+    ld v = r.is32 ? (ld)r.vf : (ld)r.vd;
+    bool vnan = r.is32 ? std::isnan(r.vf) : std::isnan(r.vd);
+    check_atof(o, L, r.single, v, vnan, r.end, r.has_end, k == E_A64U, s);
+}
+static void run_parse_op(out &o, const std::string &op, const bytes &m)
+{
+    int k = entry_index(op);
+    exact_buf s(m);
+    lit L = match_literal(s.p);
+    pres r = call_entry(k, (const char *)s.p);
+    o.result = r.is32 ? fbits(r.vf) : dbits(r.vd);
+    if (r.has_end) o.result += r.unset ? std::string(" e-unset") : " e" + std::to_string(r.end);
+    judge_entry(o, k, s.p, r, L);
+    o.tag(op.c_str());
+    if (L.sign) o.tag(L.neg ? "minus" : "plus");
+    if (L.ip.empty()) o.tag("no-integer-digits");
+    if (L.ip.empty() && L.fp.empty()) o.tag("no-digits-no-conversion");
+    if (L.dot) o.tag(L.fp.empty() ? "point-without-digits" : "fraction");
+    if (L.hasexp) o.tag(L.ex < 0 ? "negative-exponent" : "exponent");
+    if (L.expdigits > 6) o.tag("exponent-saturates");
+    if (m[L.end] != 0) o.tag("tail");
+    if ((m[L.end] | 0x20) == 'e') o.tag("tail-looks-like-exponent");
+    if (sigdigits(L) > 17) o.tag("long-mantissa");
+    if (L.ip.size() + L.fp.size() >= 1000) o.tag("1000-digits");
+}
+// exhaustive small strings: the string number c of length len over GXA (first character = least significant digit)
+static const char GXA[10] = {'+', '-', '.', 'e', 'E', '0', '1', '9', ' ', 'x'};
+static bytes gx_string(int len, uint64_t c)
+{
+    bytes m;
+    for (int k = 0; k < len; k++) m.push_back((uint8_t)GXA[c % 10]), c /= 10;
+    m.push_back(0);
+    return m;
+}
+
+// calls made BEFORE main(): the constructor of an object with init_priority(101) runs ahead of every ordinary
+// static initialiser of the program (static-initialisation-order dependencies of the routines would show here)
+struct premain_t
+{
+    double v64, vstd, vlibc, vstd32;
+    float v32;
+    long e64, e32, estd, elibc, estd32;
+    char t32[48], tftoa[48];
+    premain_t()
+    {
+        char *e;
+        const char *s;
+        s = "-12.5e-1x", v64 = igris_atof64(s, &e), e64 = e - s;
+        s = "3.25e1", v32 = igris_atof32(s, &e), e32 = e - s;
+        s = "7.", vstd = igris_strtod(s, &e), estd = e - s;
+        s = ".5e1", vlibc = igv_strtod(s, &e), elibc = e - s;
+        s = "2.5", vstd32 = igv32_igris_strtod(s, &e), estd32 = e - s;
+        memset(t32, 0, sizeof t32), memset(tftoa, 0, sizeof tftoa);
+        igris_f32toa(0.1f, t32, 6);
+        igris_ftoa(1234.5678, tftoa, -1);
+    }
+};
+static premain_t g_premain __attribute__((init_priority(101)));
+
+// ---------------------------------------------------------------------------------------------
 static volatile float vf1, vf2;
 static volatile double vd1, vd2;
 static std::string do_sf(const std::vector<std::string> &w)
@@ -417,9 +565,9 @@ static void run_op(const std::vector<std::string> &w, const std::string &, out &
         o.result = s;
         return;
     }
-    if (op == "f32" || op == "f64" || op == "ftoa")
+    if (op == "f32" || op == "f64" || op == "ftoa" || op == "ftoa32")
     {
-        int kind = op == "f32" ? 0 : op == "f64" ? 1 : 2;
+        int kind = op == "f32" ? 0 : op == "f64" ? 1 : op == "ftoa" ? 2 : 3; // 3: igris_ftoa of the WITHOUT_ATOF64 build (takes a float32_t)
         uint64_t b = strtoull(w[1].c_str(), 0, 16);
         int prec = atoi(w[2].c_str());
         ftoa_out r = run_ftoa(kind, b, (int8_t)prec);
@@ -507,47 +655,83 @@ static void run_op(const std::vector<std::string> &w, const std::string &, out &
         o.tag("sweep");
         return;
     }
-    if (op == "a32" || op == "a32n" || op == "a64" || op == "a64u" || op == "strtod" || op == "atof" || op == "brf")
+    if (entry_index(op) >= 0)
     {
         bytes m = unhex(w[1]);
         if (m.empty() || std::find(m.begin(), m.end(), 0) == m.end()) { o.result = "bad-op"; return; }
-        exact_buf s(m);
-        lit L = match_literal(s.p);
-        char *const UNSET = (char *)16;
-        char *end = UNSET;
-        bool single = op == "a32" || op == "a32n" || op == "brf", has_end = true;
-        float vf = 0;
-        double vd = 0;
-        if (op == "a32") vf = igris_atof32((const char *)s.p, &end);
-        else if (op == "a32n") vf = igris_atof32((const char *)s.p, 0), has_end = false;
-        else if (op == "brf")
+        run_parse_op(o, op, m);
+        return;
+    }
+    if (op == "lng" && w.size() >= 4 && entry_index(w[1]) >= 0)
+    {
+        // lng KIND B1 N1 B2 N2 ...: the string is N1 times the byte B1, then N2 times B2, ... (run-length coded:
+        // long literals); the NUL is part of the list
+        bytes m;
+        for (size_t i = 2; i + 1 < w.size(); i += 2)
+            m.insert(m.end(), (size_t)strtoull(w[i + 1].c_str(), 0, 10), (uint8_t)strtoul(w[i].c_str(), 0, 16));
+        if (m.empty() || std::find(m.begin(), m.end(), 0) == m.end()) { o.result = "bad-op"; return; }
+        run_parse_op(o, w[1], m);
+        o.tag("run-length-coded");
+        if (m.size() >= 300 * 1024) o.tag("300KiB");
+        return;
+    }
+    if ((op == "gx" || op == "gxo") && w.size() >= 4)
+    {
+        // gx LEN START COUNT: the strings number START .. START+COUNT-1 of length LEN over the alphabet GXA,
+        // through EVERY entry point; result = FNV-1a over (value bits, end offset) of the nine entry points
+        int len = atoi(w[1].c_str());
+        uint64_t c0 = strtoull(w[2].c_str(), 0, 10), cnt = strtoull(w[3].c_str(), 0, 10);
+        uint64_t h = 0xcbf29ce484222325ull;
+        for (uint64_t c = c0; c < c0 + cnt; c++)
         {
-            igris::binreader br((const char *)s.p);
-            br.read_ascii_decimal_float(&vf);
-            const char *q;
-            br.bind_buffer(q, 0); // reads the reader's position
-            end = (char *)q;
+            bytes m = gx_string(len, c);
+            exact_buf s(m);
+            lit L = match_literal(s.p);
+            for (int k = 0; k < E_HASHED; k++)
+            {
+                pres r = call_entry(k, (const char *)s.p);
+                uint8_t rec[10];
+                size_t n = 0;
+                if (r.is32) { uint32_t b = std::isnan(r.vf) ? 0xffffffffu : bits(r.vf); memcpy(rec, &b, 4), n = 4; }
+                else { uint64_t b = std::isnan(r.vd) ? ~0ull : bits(r.vd); memcpy(rec, &b, 8), n = 8; }
+                rec[n++] = r.has_end ? (r.unset ? 0xfe : (uint8_t)r.end) : 0xff;
+                h = fnv(h, rec, n);
+                if (o.oracle == "ok")
+                {
+                    out t;
+                    judge_entry(t, k, s.p, r, L);
+                    if (t.oracle != "ok") o.fail(std::string(ENAME[k]) + " " + hex(m) + ": " + t.oracle.substr(5));
+                }
+            }
         }
-        else if (op == "a64" || op == "a64u") vd = igris_atof64((const char *)s.p, &end);
-        else if (op == "strtod") vd = igv_strtod((const char *)s.p, &end);
-        else vd = igv_atof((const char *)s.p), has_end = false;
-        o.result = single ? fbits(vf) : dbits(vd);
-        long eo = 0;
-        if (has_end)
-        {
-            if (end == UNSET) { o.result += " e-unset"; o.fail("the end pointer was not stored"); }
-            else { eo = end - (char *)s.p; o.result += " e" + std::to_string(eo); }
-        }
-        if (!(has_end && end == UNSET))
-            check_atof(o, L, single, single ? (ld)vf : (ld)vd, single ? std::isnan(vf) : std::isnan(vd), eo, has_end, op == "a64u");
-        o.tag(op.c_str());
-        if (L.sign) o.tag(L.neg ? "minus" : "plus");
-        if (L.ip.empty()) o.tag("no-integer-digits");
-        if (L.dot) o.tag(L.fp.empty() ? "point-without-digits" : "fraction");
-        if (L.hasexp) o.tag(L.ex < 0 ? "negative-exponent" : "exponent");
-        if (m[L.end] != 0) o.tag("tail");
-        if ((m[L.end] | 0x20) == 'e') o.tag("tail-looks-like-exponent");
-        if (sigdigits(L) > 17) o.tag("long-mantissa");
+        o.result = op == "gx" ? hexn(h, 16) + " " + std::to_string(cnt) : "judged " + std::to_string(cnt);
+        o.tag(op == "gx" ? "exhaustive-small-strings" : "exhaustive-small-strings-oracle-only");
+        o.tag(("gx-len-" + std::to_string(len)).c_str());
+        return;
+    }
+    if (op == "sz")
+    {
+        // type widths the model embeds, read out of the compiled code
+        char *e;
+        o.result = "float32_t=" + std::to_string(sizeof(float32_t)) + " float64_t=" + std::to_string(sizeof(float64_t)) +
+                   " atof32=" + std::to_string(sizeof(igris_atof32("0", &e))) + " atof64=" + std::to_string(sizeof(igris_atof64("0", &e))) +
+                   " strtod=" + std::to_string(sizeof(igris_strtod("0", &e))) + " strtod32=" + std::to_string(sizeof(igv32_igris_strtod("0", &e))) +
+                   " ftoa32arg=" + std::to_string(igv32_sizeof_ftoa_arg()) + " int=" + std::to_string(sizeof(int)) +
+                   " maxprec=" + std::to_string(igv_max_precision());
+        return;
+    }
+    if (op == "premain")
+    {
+        // results of calls made from a constructor with init_priority(101), i.e. before main() and before
+        // every ordinary static initialiser
+        const premain_t &P = g_premain;
+        o.result = "a64=" + dbits(P.v64) + " e" + std::to_string(P.e64) + " a32=" + fbits(P.v32) + " e" + std::to_string(P.e32) +
+                   " istd=" + dbits(P.vstd) + " e" + std::to_string(P.estd) + " strtod=" + dbits(P.vlibc) + " e" + std::to_string(P.elibc) +
+                   " istd32=" + dbits(P.vstd32) + " e" + std::to_string(P.estd32) + " f32=" + hex(std::string(P.t32)) + " ftoa=" + hex(std::string(P.tftoa));
+        if (!(P.v64 == -1.25 && P.e64 == 8 && P.v32 == 32.5f && P.e32 == 6 && P.vstd == 7.0 && P.estd == 2 && P.vlibc == 5.0 && P.elibc == 4 &&
+              P.vstd32 == 2.5 && P.estd32 == 3 && !strcmp(P.t32, "0.100000") && !strcmp(P.tftoa, "1234.57")))
+            o.fail("a call made before main() gave a wrong result");
+        o.tag("before-main");
         return;
     }
     if (op == "dpd" || op == "dpf")
@@ -692,7 +876,7 @@ static void emit_lit(const std::string &kind, const std::string &text)
 {
     std::string h = text.empty() ? "00" : hexstr(text);
     // route literals of atof32's recorded class to the finding probes
-    if (kind == "a32" || kind == "a32n" || kind == "brf")
+    if (kind == "a32" || kind == "a32n" || kind == "brf" || kind == "istd32" || kind == "strtod32" || kind == "atof32c")
     {
         bytes m(text.begin(), text.end());
         m.push_back(0);
@@ -706,7 +890,7 @@ static void emit_lit(const std::string &kind, const std::string &text)
             return;
         }
     }
-    if (kind == "a64" || kind == "strtod" || kind == "atof")
+    if (kind == "a64" || kind == "strtod" || kind == "atof" || kind == "istd")
     {
         bytes m(text.begin(), text.end());
         m.push_back(0);
@@ -724,6 +908,8 @@ static void gen(rng &r, const std::string &tier)
 {
     bool th = tier == "thorough";
     puts("tbl");
+    puts("sz");
+    puts("premain");
     // ---------------- (1) renderers: boundary patterns x precisions
     std::vector<uint32_t> pool = boundary_f32(r, th ? 6000 : 1500);
     for (uint32_t b : pool)
@@ -746,7 +932,7 @@ static void gen(rng &r, const std::string &tier)
         uint64_t db = bits(d);
         if (r.chance(60)) db += r.range(-3, 3) * (r.chance(50) ? 1 : (1ll << 28)); // between two floats
         float fx = (float)d_of(db);
-        const char *k = r.chance(50) ? "f64" : "ftoa";
+        const char *k = r.chance(40) ? "f64" : r.chance(50) ? "ftoa" : "ftoa32";
         if (f32_out_of_range(bits(fx)) || (std::isinf(fx) && std::isfinite(d_of(db)))) printf("@F:C12-ftoa-int32-range %s %016llx %d\n", k, (unsigned long long)db, pick_prec(r));
         else printf("%s %016llx %d\n", k, (unsigned long long)db, pick_prec(r));
     }
@@ -768,7 +954,7 @@ static void gen(rng &r, const std::string &tier)
     }
     // ---------------- (3) parsers
     static const char *TAILS[] = {"", "", "", "x", " ", "e", "E", "e+", "e-", "E+x", "ex", ".", "..", "-", "+", "+5", "-5", "f", ",", "\n", "e5", ".5", "1", "0x", "inf", "nan"};
-    static const char *KINDS[] = {"a64", "a64", "a32", "a32", "strtod", "atof", "a32n", "brf"};
+    static const char *KINDS[] = {"a64", "a64", "a32", "a32", "strtod", "atof", "a32n", "brf", "istd", "istd", "istd32", "strtod32", "atof32c"};
     auto tail = [&](const std::string &lit) -> std::string {
         std::string t = TAILS[r.below(sizeof TAILS / sizeof *TAILS)];
         return lit + t;
@@ -798,7 +984,7 @@ static void gen(rng &r, const std::string &tier)
     for (int i = 0; i < nl; i++)
     {
         std::string kind = KINDS[r.below(sizeof KINDS / sizeof *KINDS)];
-        bool single = kind[1] == '3' || kind == "brf";
+        bool single = kind[1] == '3' || kind == "brf" || kind.find("32") != std::string::npos;
         std::string s;
         if (r.chance(45)) s += r.chance(70) ? "-" : "+";
         size_t ni = r.chance(10) ? 0 : r.chance(75) ? 1 + r.below(single ? 9 : 12) : 1 + r.below(single ? 12 : 25);
@@ -831,48 +1017,78 @@ static void gen(rng &r, const std::string &tier)
                           "0.000000000000000000000000000001", "4294967295", "4294967295.999999999999999999", "0.999999999999999999", "16777217", "1e38", "1e-45", "3.4028235e38", "1e39"})
     {
         emit_lit("a64", c), emit_lit("a32", c), emit_lit("strtod", c), emit_lit("atof", c), emit_lit("brf", c), emit_lit("a32n", c);
+        emit_lit("istd", c), emit_lit("istd32", c), emit_lit("strtod32", c), emit_lit("atof32c", c);
     }
-    for (const char *c : {"4294967296", "10000000000", "0.1234567890123456789", "0.10000000000000000000", "99999999999.5"})
-        emit_lit("a32", c);
-    // huge exponents (termination, overflow of the exponent accumulator)
-    for (const char *c : {"1e2147483647", "1e2147483648", "1e-2147483649", "1e99999999999", "0e99999999999", "1e-99999999999", "1e4294967297"})
-        emit_lit("a64", c), emit_lit("a32", c);
-    // mantissas that overflow before the scaling loop (recorded finding C12-atof64-mantissa-overflow): routed by emit_lit
-    for (int i = 0; i < (th ? 40 : 12); i++)
+    // "no digits -> no conversion", a point without fraction digits, an exponent letter without exponent digits: every entry point
+    for (const char *c : {"-", "+", ".", "-.", "+.", "5.", "-5.", "5.e", "5.e+", "5.e-x", ".e5", "-.e5", "+.E-5", "5.e3", ".5", "5", "e", "E5", "+e5", "-4096.x", "0.", "0.e", "-0.",
+                          " 5", "\t5", "5 ", "- 5", "-+5", "+-5", ". 5", "5e 5", "5e+ 5", "0x5", "0x.8p1", "x", "inf", "nan", "-inf", "1e5x", "1E+05.", "1.e1", "00.00e00"})
+        for (const char *k : {"a64", "istd", "strtod", "atof", "a32", "a32n", "brf", "istd32", "strtod32", "atof32c"}) emit_lit(k, c);
+    // ---------------- (3b) exhaustive: EVERY string of length <= 6 (thorough: 7) over {+ - . e E 0 1 9 space x}
+    // through EVERY entry point (op gx: hashed batches; the oracle judges every string)
     {
-        size_t n = 308 + r.below(30);
-        std::string digs = r.chance(50) ? "1" + std::string(n, '0') : digits_str(r, n + 1, false);
-        size_t cut = r.chance(50) ? digs.size() : r.below(digs.size());
-        std::string s = digs.substr(0, cut) + (cut < digs.size() ? "." + digs.substr(cut) : "");
-        s += "e-" + std::to_string((long)cut - 1 + (long)r.below(5));
-        emit_lit(r.chance(70) ? "a64" : "strtod", s);
+        // quick: lengths 0..5 and a seed-dependent tenth of length 6 through model AND code (gx), the rest of
+        // length 6 judged by the oracle only (gxo); thorough: all of length 6 and a 16th of length 7 per seed through both
+        const uint64_t B = 4000;
+        uint64_t total = 1;
+        for (int len = 0; len <= 5; len++, total *= 10)
+            for (uint64_t c = 0; c < total; c += B) printf("gx %d %llu %llu\n", len, (unsigned long long)c, (unsigned long long)std::min(B, total - c));
+        if (!th)
+        {
+            for (uint64_t c = 0, i = 0; c < 1000000; c += B, i++)
+                printf("%s 6 %llu %llu\n", i % 10 == g_seed % 10 ? "gx" : "gxo", (unsigned long long)c, (unsigned long long)B);
+        }
+        else
+        {
+            uint64_t part = g_seed % NPART;
+            for (uint64_t c = 0, i = 0; c < 1000000; c += B, i++)
+                printf("%s 6 %llu %llu\n", i % NPART == part ? "gx" : "gxo", (unsigned long long)c, (unsigned long long)B);
+            uint64_t span = 10000000ull / NPART;
+            for (uint64_t c = part * span; c < (part + 1) * span; c += B)
+                printf("gx 7 %llu %llu\n", (unsigned long long)c, (unsigned long long)std::min(B, (part + 1) * span - c));
+        }
     }
-    emit_lit("a64", "1" + std::string(310, '0') + "e-310");
-    // "within a few ulps of strtod" taken literally (4 units of 2^-53 |ref|), op a64u: the class the theorem
-    // guarantees (at most 15 digits, net exponent |d| <= 2) in the normal stream, large net exponents as
-    // probes of the recorded finding C12-atof64-scaling-error
-    for (int i = 0; i < (th ? 2000 : 500); i++)
+    // ---------------- (3c) long literals (run-length coded, op lng): 1000 digits, 300 KiB of zeros before / behind the
+    // point and in the exponent, exponents beyond int / long long; termination, value, end pointer
     {
-        std::string s;
-        if (r.chance(30)) s += "-";
-        size_t ni = r.below(9), nf = r.below(7);
-        if (ni + nf == 0) ni = 1;
-        s += digits_str(r, ni, false);
-        if (nf) s += "." + digits_str(r, nf);
-        long e = (long)nf + r.range(-2, 2);
-        if (r.chance(80)) s += "e" + std::to_string(e);
-        bytes m(s.begin(), s.end());
-        m.push_back(0);
-        lit L = match_literal(m.data());
-        if (a64_small_budget(L)) printf("a64u %s\n", hexstr(s).c_str());
+        auto lng = [&](const char *kind, std::initializer_list<std::pair<const char *, unsigned long>> runs, const char *probe = 0) {
+            std::string l = std::string(probe ? std::string("@F:") + probe + " " : std::string()) + "lng " + kind;
+            for (auto &pr : runs)
+                for (const char *q = pr.first; *q; q++) { char b[40]; snprintf(b, sizeof b, " %02x %lu", (unsigned)(uint8_t)*q, pr.second); l += b; }
+            l += " 00 1";
+            puts(l.c_str());
+        };
+        // KM: zeros in the mantissa (each one a soft-float step of the model), KE: zeros / nines in the exponent.
+        // quick: ONE 300 KiB mantissa (igris_atof64) and 300 KiB exponents for igris_atof64 / igris_strtod /
+        // igris_atof32 / igris_strtod(WITHOUT_ATOF64); the other inputs have 3000 characters.  thorough: all 300 KiB
+        const unsigned long K300 = 300 * 1024;
+        int nth = 0;
+        for (const char *k : {"a64", "istd", "strtod", "atof"})
+        {
+            const unsigned long KM = th || nth == 0 ? K300 : 3000, KM2 = th ? K300 : 3000, KE = th || nth < 2 ? K300 : 3000;
+            nth++;
+            lng(k, {{"0", KM}, {"1", 1}, {".", 1}, {"5", 1}});                          // zeros before the point
+            lng(k, {{"-", 1}, {"0", 1}, {".", 1}, {"0", nth == 1 ? K300 : KM2}, {"1", 1}}); // ... behind the point: d = -(n+1) (int d counts down 300 Ki times), underflow to -0
+            lng(k, {{"0", 1}, {".", 1}, {"0", KM2}});                                   // zero with a long fraction
+            lng(k, {{"1", 1}, {"e", 1}, {"0", KE}, {"5", 1}, {"x", 1}});                // leading zeros in the exponent
+            lng(k, {{"1", 1}, {"e", 1}, {"-", 1}, {"9", th || nth == 1 ? KE : 5}});     // exponent far beyond long long: saturates, 0 (10^6 scaling steps)
+            lng(k, {{"0", 1}, {".", 1}, {"0", 700}, {"1", 1}, {"2", 1}, {"9", 298}, {"e", 1}, {"+", 1}, {"7", 1}, {"0", 2}}); // 1000 digits, 300 significant
+            lng(k, {{"0", 900}, {"1", 1}, {"2", 99}, {".", 1}, {"5", 1}});              // 1000 integer digits, 100 significant
+            lng(k, {{"1", 1}, {"0", KM2}}, 0);                                          // 1e3000 / 1e307200 = inf for strtod as well
+            lng(k, {{"9", 1000}, {"e", 1}, {"-", 1}, {"9", 1}, {"0", 2}}, "C12-atof64-mantissa-overflow"); // 9.99e99 with 1000 digits
+            lng(k, {{"1", 1}, {".", 1}, {"0", KM2}}, "C12-atof64-mantissa-overflow");   // 1.000...0 = 1
+        }
+        nth = 0;
+        for (const char *k : {"a32", "istd32", "a32n", "brf", "strtod32", "atof32c"})
+        {
+            const unsigned long K = th || nth < 2 ? K300 : 3000;
+            nth++;
+            lng(k, {{"0", K}, {"1", 1}, {".", 1}, {"5", 1}});
+            lng(k, {{"1", 1}, {"e", 1}, {"0", K}, {"5", 1}, {"x", 1}});
+            lng(k, {{"1", 1}, {"e", 1}, {"-", 1}, {"9", th || nth == 1 ? K : 5}});
+            lng(k, {{"-", 1}, {"0", 900}, {"4", 1}, {"2", 1}, {".", 1}, {"0", 17}, {"1", 1}, {"E", 1}, {"0", 50}, {"2", 1}});
+            if (nth == 1) lng(k, {{"0", 1}, {".", 1}, {"0", 3000}, {"1", 1}}, "C12-atof32-digit-count");
+        }
     }
-    for (int i = 0; i < (th ? 300 : 60); i++)
-    {
-        std::string s = digits_str(r, 1 + r.below(15), false);
-        s += (r.chance(70) ? "e-" : "e") + std::to_string(150 + r.below(150));
-        printf("@F:C12-atof64-scaling-error a64u %s\n", hexstr(s).c_str());
-    }
-    printf("@F:C12-atof64-scaling-error a64u %s\n", hexstr("1e-300").c_str());
     // ---------------- (4) debug printers
     {
         std::vector<double> dv;
